@@ -142,6 +142,22 @@ theorem C11_sanity_agrees_of_length (o f : List Tok) (hlen : f.length ≤ o.leng
     subst this; simpa using h
   · intro h; exact ⟨f, [], by simp, h⟩
 
+/-- With the length comparison of fixes/C11-sanity-check-length.patch the intended
+statement holds in full: `[]` iff the collapsed streams agree (and no `IndexError`). -/
+theorem C11_sanity_agrees_fixed (o f : List Tok) :
+    sanityLoopLen o f = .ok ↔ StreamsAgree o f := by
+  unfold sanityLoopLen
+  split
+  · rename_i hne
+    constructor
+    · intro h; cases h
+    · intro h; exact absurd h.length_eq hne
+  · rename_i heq
+    have : f.length ≤ o.length := by
+      have : o.length = f.length := Decidable.of_not_not heq
+      omega
+    exact C11_sanity_agrees_of_length o f this
+
 def tDoc : Tok := ⟨"Documentation", "-- doc".toList⟩
 def tNl : Tok := ⟨nlSym, "\n".toList⟩
 def tExtra : Tok := ⟨"Documentation", "-- extra".toList⟩
